@@ -8,7 +8,7 @@ from ..models import transform as tm
 
 ID = "C08"
 NEEDS_SHIM = True
-BUDGET = {"quick": 2000, "thorough": 40000}
+BUDGET = {"quick": 2000, "thorough": 200000}
 MIN_EVALS = {"quick": 2000, "thorough": 40000}
 ASSUMPTIONS = ["numba is absent: xgcm.transform is imported with the pure-Python guvectorize stand-in /verif/vf/shim/numba"]
 RULE = (
@@ -29,7 +29,7 @@ REQUIRED_REACH = ["xgcm.transform._interp_1d_linear", "xgcm.transform.interp_1d_
 
 
 def gen_case(rng, i, tier):
-    n = rng.randint(2, 8)
+    n = rng.randint(2, gen.deep(rng, tier, 8, 16))
     ncol = rng.randint(1, 3)
     method = rng.choice(["linear", "linear", "log"])
     decimal = rng.random() < 0.25  # tenths are not representable in binary (nor the same in float32 and float64)
